@@ -153,6 +153,10 @@ class Model:
         from . import inline
         _REAL_LINES.clear()
         try:
+            inline.erase_keyword_only(self.mods)
+        except Exception:
+            pass
+        try:
             self.undone_renames = inline.undo_renames(self.mods)
         except Exception:
             self.undone_renames = {}
@@ -200,10 +204,18 @@ class Model:
         vocab = inline._baseline_vocab()
         self.moved = {}
         for old, d in baseline.items():
-            if dict.__contains__(self.funcs, old) or old in self.funcs.alias or '.' in old.split(':')[1] or '@' in old:
+            if dict.__contains__(self.funcs, old) or old in self.funcs.alias or '@' in old or '#' in old:
                 continue
             omod, name = old.split(':')
-            cands = [f for f in self.funcs.values() if f.parent is None and f.cls is None and f.name == name and f.mod != omod and f.key not in baseline]
+            ocls = None
+            if '.' in name:
+                # a static method of the reviewed tree that became a module-level function of the same name
+                ocls, _, name = name.partition('.')
+                if '.' in name or ocls not in self.classes or (vocab.get(old) and len(vocab[old]) > 2 and False):
+                    continue
+                if (inline._baseline_params().get(old) or ['self'])[0] in ('self', 'cls'):
+                    continue
+            cands = [f for f in self.funcs.values() if f.parent is None and f.cls is None and f.name == name and (f.mod != omod or ocls) and f.key not in baseline]
             if len(cands) != 1:
                 continue
             f = cands[0]
@@ -225,6 +237,11 @@ class Model:
                 # the name itself says most of it (one function of that name vanished, one appeared elsewhere); the vocabulary only
                 # has to be related, since a move is often combined with restyling
                 same = len(ov & words) / max(1, len(ov | words)) >= 0.25
+            if same and ocls:
+                self.funcs.alias_obj[old] = f
+                self.classes[ocls].methods.setdefault(name, f)
+                self.moved[old] = f.key
+                continue
             if same:
                 self.funcs.alias_obj[old] = f
                 if not isinstance(self.modfuncs[omod], _Aliased):
